@@ -326,6 +326,7 @@ func runC15(c *eng.Ctx) {
 	runC15Classes(c, cr)
 	RunOptionalRetry(c, cr.next)
 	RunBuildCleanupFails(c, cr.next)
+	RunOddResultLists(c, cr.next)
 	nSpecs := c.Pick(300, 6000)
 	for k := 0; k < nSpecs; k++ {
 		idx, mine := cr.next()
